@@ -1107,7 +1107,7 @@ expand_manifests(string &expr, bool expand_undefined,
           vector_string args;
           if (manifest->_has_parameters) {
             // If it's not followed by a parenthesis, don't expand it.
-            while (p < expr.size() && isspace(expr[p])) {
+            while (p < expr.size() && CPPManifest::is_blank(expr[p])) {
               p++;
             }
             if (p >= expr.size() || expr[p] != '(') {
@@ -1133,14 +1133,14 @@ expand_manifests(string &expr, bool expand_undefined,
           // the number 1., "-M" with M defined as -1 is not --1).
           if (result.empty()) {
             if (CPPManifest::would_paste(expr, q, expr, p)) {
-              result = " ";
+              result = string(1, CPPManifest::token_separator);
             }
           } else {
             if (CPPManifest::would_paste(expr, q, result, 0)) {
-              result.insert(0, 1, ' ');
+              result.insert(0, 1, CPPManifest::token_separator);
             }
             if (CPPManifest::would_paste(result, result.size(), expr, p)) {
-              result += ' ';
+              result += CPPManifest::token_separator;
             }
           }
           // Scanning continues after the expansion - except that a name at
@@ -1380,7 +1380,7 @@ internal_get_next_token() {
   // Look for an end-of-line comment, and parse it before we finish this
   // token.  This is not strictly necessary, but it allows us to pick up
   // docstrings from comments after enum values.
-  while (next_c != EOF && isspace(next_c)) {
+  while (next_c != EOF && CPPManifest::is_blank(next_c)) {
     get();
     next_c = peek();
   }
@@ -1544,7 +1544,7 @@ skip_whitespace(int c) {
       c = get();
     }
 
-    if (!isspace(c)) {
+    if (!CPPManifest::is_blank(c)) {
       return c;
     }
     c = get();
@@ -2425,7 +2425,7 @@ get_identifier(int c, bool no_expand) {
       // White space, which includes comments, may separate the name from the
       // parenthesis.
       while (c != EOF) {
-        if (isspace(c)) {
+        if (CPPManifest::is_blank(c)) {
           get();
           c = peek();
         }
@@ -2481,7 +2481,7 @@ get_identifier(int c, bool no_expand) {
     if (kw == KW_EXPLICIT || kw == KW_NOEXCEPT) {
       // These can be followed by a left-paren.  Doing this helps to avoid
       // shift/reduce conflicts in the parser.
-      while (c != EOF && isspace(c)) {
+      while (c != EOF && CPPManifest::is_blank(c)) {
         get();
         c = peek();
       }
@@ -2746,7 +2746,7 @@ extract_manifest_args(const string &name, int num_args, int va_arg,
   if (c == 0) {
     c = get();
   }
-  while (c != EOF && isspace(c)) {
+  while (c != EOF && CPPManifest::is_blank(c)) {
     c = get();
   }
 
